@@ -1,6 +1,458 @@
-//! C02 — not implemented yet.
-use crate::core::Ctx;
-use serde_json::Value;
+//! C02 — HTTP/1.1 request bytes are parsed faithfully, malformed bytes are refused (DESIGN §5 C02).
+//!
+//! Deviation-bounded enumeration: deviation 0 = every well-formed request of a product of small menus;
+//! deviation 1 = every single edit (structural edit or truncation point) on every base; deviation 2 = every
+//! pair on a reduced base set.  Each byte string is the first read of a fresh connection through the real
+//! `Request::read`; afterwards every public accessor is called.  Oracle: independent reference parser of
+//! exactly the subset the statement names (refmodel/httpreq.rs).
 
-pub fn run(ctx: &mut Ctx) { ctx.machinery_error("C02 engine not implemented".into()); }
-pub fn replay(ctx: &mut Ctx, _case: &Value) { ctx.machinery_error("C02 engine not implemented".into()); }
+use crate::core::{guarded, panic_kind, Ctx};
+use crate::exec::{Driver, RunResult};
+use crate::refmodel::http::parse_response;
+use crate::refmodel::httpreq::{parse_request, pct_decode, Parse, RefRequest, METHODS};
+use crate::sio::{ScriptedReader, ScriptedWriter, WriterMode};
+use ohkami::__verif__::{send, RawConn};
+use serde_json::{json, Value};
+
+/* ---------------- bases ---------------- */
+
+#[derive(Clone, Debug)]
+pub struct Base { pub method: &'static str, pub target: Vec<u8>, pub headers: Vec<(&'static str, &'static str)>, pub body: Vec<u8>, pub with_cl: bool }
+
+const HEADER_MENU: [(&str, &str); 13] = [
+    ("X-Custom", "v3"),
+    ("Host", "h.example"), ("host", "lower.example"), ("Content-type", "text/plain"),
+    ("X-Custom", "v1"), ("x-custom", "v2"), ("Accept", "a, b"), ("Accept", "c"),
+    ("X-Empty", ""), ("X-Sp", "a b: c"), ("Connection", "close"), ("Cookie", "a=1"), ("Cookie", "b=2"),
+];
+const TARGET_MENU: [&str; 12] = ["/", "/a", "/a/", "/a/b", "/a?x=1", "/a?x=1&y=%20", "/a?", "/%41", "/a%2Fb", "/%C3%A9", "/a?k=%C3%A9&e=", "/%FF"];
+
+fn header_selections(max: usize, menu: usize) -> Vec<Vec<usize>> {
+    let mut out = vec![vec![]];
+    let mut frontier = vec![vec![]];
+    for _ in 0..max {
+        let mut next = vec![];
+        for s in &frontier { for i in 0..menu { if !s.contains(&i) { let mut n: Vec<usize> = s.clone(); n.push(i); next.push(n) } } }
+        out.extend(next.iter().cloned());
+        frontier = next;
+    }
+    out
+}
+
+impl Base {
+    pub fn head(&self) -> Vec<u8> {
+        let mut v = Vec::new();
+        v.extend_from_slice(self.method.as_bytes()); v.push(b' '); v.extend_from_slice(&self.target); v.extend_from_slice(b" HTTP/1.1\r\n");
+        for (k, val) in &self.headers { v.extend_from_slice(k.as_bytes()); v.extend_from_slice(b": "); v.extend_from_slice(val.as_bytes()); v.extend_from_slice(b"\r\n"); }
+        if self.with_cl { v.extend_from_slice(format!("Content-Length: {}\r\n", self.body.len()).as_bytes()); }
+        v.extend_from_slice(b"\r\n");
+        v
+    }
+    pub fn bytes(&self) -> Vec<u8> { let mut v = self.head(); v.extend_from_slice(&self.body); v }
+}
+
+/// body variants relative to the head: none, 1 byte, NUL-leading, 5 bytes, exactly the rest of the 1 KiB buffer, one more, 2 KiB
+fn bodies(head_len_without_cl: usize, full: bool) -> Vec<Vec<u8>> {
+    let mut v: Vec<Vec<u8>> = vec![vec![], b"x".to_vec(), b"\0x".to_vec(), b"hello".to_vec()];
+    // "Content-Length: NNN\r\n" adds 18 + digits bytes to the head
+    for extra in [0isize, 1] {
+        let mut n = 1024isize - head_len_without_cl as isize - 18 - 3 + extra;
+        if n > 0 { if n < 100 { n += 1 } v.push((0..n).map(|i| b'a' + (i % 26) as u8).collect()); }
+    }
+    if full { v.push((0..2048).map(|i| b'A' + (i % 26) as u8).collect()); v.push(b"a\0b".to_vec()); }
+    v
+}
+
+/* ---------------- edits ---------------- */
+
+#[derive(Clone, Debug, PartialEq)]
+pub enum Edit { S(&'static str), Trunc(usize) }
+
+pub const STRUCTURAL: [&str; 36] = [
+    "ver:http10", "ver:lf-only", "ver:http2", "method:lower", "method:unknown", "no-second-sp", "double-sp", "target:absolute", "target:asterisk",
+    "hdr:no-space", "hdr:space-before-colon", "hdr:bare-lf", "hdr:no-colon", "hdr:obs-fold", "hdr:two-spaces",
+    "cl:abc", "cl:-1", "cl:+1", "cl:1 2", "cl:20digits", "cl:40digits", "cl:two-differing", "cl:Mixed-Case-Name", "cl:larger-than-body",
+    "te:chunked",
+    "nul:target", "x80:target", "xff:target", "nul:name", "x80:name", "xff:name", "nul:value", "x80:value", "xff:value",
+    "leading-crlf", "body:nul-first",
+];
+
+/// Apply a structural edit to the byte string of a base (None: not applicable to this base).
+fn apply_structural(b: &Base, e: &str) -> Option<Vec<u8>> {
+    let mut m = b.method.as_bytes().to_vec();
+    let mut target = b.target.clone();
+    let mut version: Vec<u8> = b" HTTP/1.1\r\n".to_vec();
+    let mut sp1: Vec<u8> = b" ".to_vec();
+    let mut lines: Vec<Vec<u8>> = b.headers.iter().map(|(k, v)| format!("{k}: {v}\r\n").into_bytes()).collect();
+    let mut cl_line: Option<Vec<u8>> = b.with_cl.then(|| format!("Content-Length: {}\r\n", b.body.len()).into_bytes());
+    let mut body = b.body.clone();
+    let mut prefix: Vec<u8> = vec![];
+    let first_line = |lines: &mut Vec<Vec<u8>>| -> usize { if lines.is_empty() { lines.push(b"X-Edit: v\r\n".to_vec()) } 0 };
+    let ins = |v: &mut Vec<u8>, at: usize, byte: u8| { let at = at.min(v.len()); v.insert(at, byte) };
+    match e {
+        "ver:http10" => version = b" HTTP/1.0\r\n".to_vec(),
+        "ver:lf-only" => version = b" HTTP/1.1\n".to_vec(),
+        "ver:http2" => version = b" HTTP/2\r\n".to_vec(),
+        "method:lower" => m = m.to_ascii_lowercase(),
+        "method:unknown" => m = b"FOO".to_vec(),
+        "no-second-sp" => version = b"\r\n".to_vec(),
+        "double-sp" => sp1 = b"  ".to_vec(),
+        "target:absolute" => { let mut t = b"http://h.example".to_vec(); t.extend_from_slice(&target); target = t }
+        "target:asterisk" => target = b"*".to_vec(),
+        "hdr:no-space" => { let i = first_line(&mut lines); let l = &mut lines[i]; let c = l.iter().position(|x| *x == b':')?; l.remove(c + 1); }
+        "hdr:space-before-colon" => { let i = first_line(&mut lines); let l = &mut lines[i]; let c = l.iter().position(|x| *x == b':')?; l.insert(c, b' '); }
+        "hdr:bare-lf" => { let i = first_line(&mut lines); let l = &mut lines[i]; let n = l.len(); l.remove(n - 2); }
+        "hdr:no-colon" => { let i = first_line(&mut lines); let l = &mut lines[i]; let c = l.iter().position(|x| *x == b':')?; l.drain(c..c + 2); }
+        "hdr:obs-fold" => { let i = first_line(&mut lines); lines.insert(i + 1, b" folded\r\n".to_vec()); }
+        "hdr:two-spaces" => { let i = first_line(&mut lines); let l = &mut lines[i]; let c = l.iter().position(|x| *x == b':')?; l.insert(c + 1, b' '); }
+        "cl:abc" => cl_line = Some(b"Content-Length: abc\r\n".to_vec()),
+        "cl:-1" => cl_line = Some(b"Content-Length: -1\r\n".to_vec()),
+        "cl:+1" => { cl_line = Some(b"Content-Length: +1\r\n".to_vec()); if body.is_empty() { body = b"x".to_vec() } }
+        "cl:1 2" => cl_line = Some(b"Content-Length: 1 2\r\n".to_vec()),
+        "cl:20digits" => cl_line = Some(b"Content-Length: 99999999999999999999\r\n".to_vec()),
+        "cl:40digits" => cl_line = Some(b"Content-Length: 1000000000000000000000000000000000000000\r\n".to_vec()),
+        "cl:two-differing" => { if body.is_empty() { body = b"xy".to_vec() } cl_line = Some(format!("Content-Length: {}\r\nContent-Length: {}\r\n", body.len(), body.len() - 1).into_bytes()) }
+        "cl:Mixed-Case-Name" => { if body.is_empty() { body = b"xy".to_vec() } cl_line = Some(format!("Content-length: {}\r\n", body.len()).into_bytes()) }
+        "cl:larger-than-body" => cl_line = Some(format!("Content-Length: {}\r\n", body.len() + 3).into_bytes()),
+        "te:chunked" => { cl_line = Some(b"Transfer-Encoding: chunked\r\n".to_vec()); body = b"1\r\nx\r\n0\r\n\r\n".to_vec() }
+        "nul:target" => ins(&mut target, 1, 0), "x80:target" => ins(&mut target, 1, 0x80), "xff:target" => ins(&mut target, 1, 0xff),
+        "nul:name" => { let i = first_line(&mut lines); ins(&mut lines[i], 1, 0) }
+        "x80:name" => { let i = first_line(&mut lines); ins(&mut lines[i], 1, 0x80) }
+        "xff:name" => { let i = first_line(&mut lines); ins(&mut lines[i], 1, 0xff) }
+        "nul:value" => { let i = first_line(&mut lines); let n = lines[i].len(); ins(&mut lines[i], n - 2, 0) }
+        "x80:value" => { let i = first_line(&mut lines); let n = lines[i].len(); ins(&mut lines[i], n - 2, 0x80) }
+        "xff:value" => { let i = first_line(&mut lines); let n = lines[i].len(); ins(&mut lines[i], n - 2, 0xff) }
+        "leading-crlf" => prefix = b"\r\n".to_vec(),
+        "body:nul-first" => { body = b"\0abc".to_vec(); cl_line = Some(b"Content-Length: 4\r\n".to_vec()) }
+        _ => return None,
+    }
+    let mut v = prefix;
+    v.extend_from_slice(&m); v.extend_from_slice(&sp1); v.extend_from_slice(&target); v.extend_from_slice(&version);
+    for l in &lines { v.extend_from_slice(l) }
+    if let Some(l) = &cl_line { v.extend_from_slice(l) }
+    v.extend_from_slice(b"\r\n");
+    v.extend_from_slice(&body);
+    Some(v)
+}
+
+/// truncation points of a byte string: every prefix of the first 96 bytes, around the end of the head, and the last bytes
+fn trunc_points(bytes: &[u8], dense: bool) -> Vec<usize> {
+    let n = bytes.len();
+    let head_end = bytes.windows(4).position(|w| w == b"\r\n\r\n").map(|p| p + 4).unwrap_or(n);
+    let mut v: Vec<usize> = (0..n.min(if dense { 96 } else { 40 })).collect();
+    for d in 0..6 { if head_end > d { v.push(head_end - d) } if head_end + d < n { v.push(head_end + d) } if n > d + 1 { v.push(n - 1 - d) } }
+    v.retain(|p| *p < n);
+    v.sort(); v.dedup();
+    v
+}
+
+/* ---------------- running the implementation ---------------- */
+
+#[derive(Debug, Clone, PartialEq)]
+pub struct Fields {
+    method: String,
+    path: Result<String, String>,
+    query: Result<Vec<(String, String)>, String>,
+    payload: Option<Vec<u8>>,
+    /// (lookup spelling, result)
+    lookups: Vec<(String, Result<Option<String>, String>)>,
+    typed: Vec<(&'static str, Result<Option<String>, String>)>,
+}
+
+#[derive(Debug, Clone, PartialEq)]
+pub enum Obs { Accepted(Fields), Refused(Vec<u8>), Closed, Panic(&'static str, String), Stall }
+
+fn title_case(name: &str) -> String {
+    let mut out = String::new(); let mut up = true;
+    for c in name.chars() { if up { out.push(c.to_ascii_uppercase()) } else { out.push(c.to_ascii_lowercase()) } up = c == '-'; }
+    out
+}
+
+pub fn run_impl(bytes: &[u8], lookup_names: &[String]) -> Obs {
+    let mut conn = RawConn::init();
+    let mut reader = ScriptedReader::new(vec![bytes.to_vec()], false);
+    reader.deliver_next();
+    let mut d = Driver::new();
+    let read = guarded(|| {
+        let fut = conn.read(&mut reader);
+        let mut fut = std::pin::pin!(fut);
+        match d.run(fut.as_mut(), 1000) { RunResult::Ready(r) => Some(r), _ => None }
+    });
+    match read {
+        Err(p) => Obs::Panic("read", p),
+        Ok(None) => Obs::Stall,
+        Ok(Some(Ok(None))) => Obs::Closed,
+        Ok(Some(Err(res))) => {
+            let mut w = ScriptedWriter::new(WriterMode::All);
+            match guarded(|| { let fut = send(res, &mut w); let mut fut = std::pin::pin!(fut); matches!(d.run(fut.as_mut(), 1000), RunResult::Ready(_)) }) {
+                Ok(true) => Obs::Refused(w.written),
+                Ok(false) => Obs::Stall,
+                Err(p) => Obs::Panic("send", p),
+            }
+        }
+        Ok(Some(Ok(Some(())))) => {
+            let req = conn.request();
+            let g = |f: &dyn Fn() -> Option<String>| guarded(|| f());
+            let fields = Fields {
+                method: format!("{}", req.method),
+                path: guarded(|| req.path.str().into_owned()),
+                query: guarded(|| req.query.iter().map(|(k, v)| (k.into_owned(), v.into_owned())).collect()),
+                payload: req.payload().map(|p| p.to_vec()),
+                lookups: lookup_names.iter().map(|n| (n.clone(), g(&|| req.headers.get(n).map(str::to_string)))).collect(),
+                typed: vec![
+                    ("Host", g(&|| req.headers.Host().map(str::to_string))),
+                    ("Content-Length", g(&|| req.headers.ContentLength().map(str::to_string))),
+                    ("Content-Type", g(&|| req.headers.ContentType().map(str::to_string))),
+                    ("Accept", g(&|| req.headers.Accept().map(str::to_string))),
+                    ("Connection", g(&|| req.headers.Connection().map(str::to_string))),
+                    ("Cookie", g(&|| req.headers.Cookie().map(str::to_string))),
+                ],
+            };
+            Obs::Accepted(fields)
+        }
+    }
+}
+
+const STD_NAMES: [&str; 6] = ["Host", "Content-Length", "Content-Type", "Accept", "Connection", "Cookie"];
+
+fn name_kind(written: &[&str]) -> &'static str {
+    let is_std = STD_NAMES.iter().any(|s| s.eq_ignore_ascii_case(written[0]));
+    let repeated = written.len() > 1;
+    let spell = |w: &str| if !is_std { "custom" } else if STD_NAMES.contains(&w) { "std-canonical" } else if w.chars().all(|c| !c.is_ascii_uppercase()) { "std-lower" } else { "std-mixed-case" };
+    let mut kinds: Vec<&str> = written.iter().map(|w| spell(w)).collect(); kinds.sort(); kinds.dedup();
+    match (kinds.as_slice(), repeated) {
+        (["custom"], false) => "custom", (["custom"], true) => if written.iter().any(|w| *w != written[0]) { "custom-repeated-other-case" } else { "custom-repeated" },
+        (["std-canonical"], false) => "std-canonical", (["std-lower"], false) => "std-lower", (["std-mixed-case"], false) => "std-mixed-case",
+        (_, true) if kinds.contains(&"std-mixed-case") => "std-repeated-mixed-case", (_, true) => "std-repeated", _ => "other",
+    }
+}
+
+/// Compare one case.  `dev` names the deviation(s) for the witness; `edit_feature` enters the class id.
+pub fn check_bytes(ctx: &mut Ctx, bytes: &[u8], dev: &str, edit_feature: &str) {
+    ctx.transitions += 1;
+    let reference = parse_request(bytes);
+    // header names to look up: every name of the reference request in three spellings
+    let mut lookup_names: Vec<String> = vec![];
+    if let Parse::Complete(r) = &reference {
+        for (n, _) in &r.headers { for s in [n.clone(), n.to_ascii_lowercase(), title_case(n)] { if !lookup_names.contains(&s) { lookup_names.push(s) } } }
+    }
+    let obs = run_impl(bytes, &lookup_names);
+    let witness = |problem: &str, detail: String| json!({"input": crate::core::esc(bytes), "deviation": dev, "reference": match &reference { Parse::Complete(r) => format!("complete(consumed {}, head {})", r.consumed, r.head_len), o => format!("{o:?}") },
+        "problem": problem, "detail": detail, "observed": match &obs { Obs::Accepted(f) => format!("accepted {} {:?} payload {:?}", f.method, f.path, f.payload.as_ref().map(|p| crate::core::esc(&p[..p.len().min(40)]))), Obs::Refused(r) => format!("refused: {}", crate::core::esc(&r[..r.len().min(60)])), o => format!("{o:?}") }});
+    let okind = match &obs { Obs::Accepted(_) => "accepted", Obs::Refused(_) => "refused", Obs::Closed => "closed", Obs::Panic(..) => "panic", Obs::Stall => "stall" };
+    // a refusal must itself be a well-formed error response
+    if let Obs::Refused(raw) = &obs {
+        match parse_response(raw, false) {
+            Ok(p) if p.status >= 400 && p.consumed == raw.len() => {}
+            Ok(p) => { ctx.violation(&format!("C02/refusal/{edit_feature}/bad-error-response({})", p.status), true, || witness("refusal is not an error response", String::new())); return }
+            Err(e) => { ctx.violation(&format!("C02/refusal/{edit_feature}/malformed-error-response"), true, || witness("refusal is malformed", e.clone())); return }
+        }
+    }
+    if let Obs::Panic(stage, msg) = &obs {
+        let stage_ref = match &reference { Parse::Complete(_) => "well-formed", Parse::Incomplete(s) => s, Parse::Invalid(_, r) => r };
+        ctx.violation(&format!("C02/{stage}/{stage_ref}/panic:{}", panic_kind(msg)), true, || witness("panic", msg.clone()));
+        return
+    }
+    match &reference {
+        Parse::Invalid(stage, reason) => match &obs {
+            Obs::Refused(_) | Obs::Closed => ctx.pass(&format!("invalid:{stage}:{okind}"), true, true),
+            Obs::Accepted(_) => ctx.violation(&format!("C02/{stage}/{reason}/accepted-should-refuse"), true, || witness("accepted", String::new())),
+            Obs::Stall => ctx.violation(&format!("C02/{stage}/{reason}/stall"), true, || witness("waits although every byte was delivered and the input can never become a valid request", String::new())),
+            Obs::Panic(..) => unreachable!(),
+        },
+        Parse::Incomplete(stage) => match &obs {
+            Obs::Stall | Obs::Refused(_) | Obs::Closed => ctx.pass(&format!("incomplete:{stage}:{okind}"), true, true),
+            Obs::Accepted(_) => ctx.violation(&format!("C02/incomplete-{stage}/{edit_feature}/accepted-incomplete-request"), true, || witness("a proper prefix of a request was accepted as a request", String::new())),
+            Obs::Panic(..) => unreachable!(),
+        },
+        Parse::Complete(r) => {
+            let oversized = r.head_len > 1024;
+            let open = !r.open.is_empty();
+            match &obs {
+                Obs::Refused(_) | Obs::Closed => {
+                    if oversized || open { ctx.ambiguous(if oversized { "head-larger-than-buffer" } else { r.open[0] }) }
+                    else { ctx.violation(&format!("C02/well-formed/{edit_feature}/refused-should-accept"), true, || witness("refused", String::new())) }
+                }
+                Obs::Stall => {
+                    let f = if r.body.first() == Some(&0) { "body-starts-with-nul" } else if oversized { "head-larger-than-buffer" } else { edit_feature };
+                    ctx.violation(&format!("C02/well-formed/{f}/stall"), true, || witness("waits for input that already arrived", String::new()))
+                }
+                Obs::Accepted(f) => compare_fields(ctx, r, f, edit_feature, oversized || open, &witness),
+                Obs::Panic(..) => unreachable!(),
+            }
+        }
+    }
+}
+
+fn compare_fields(ctx: &mut Ctx, r: &RefRequest, f: &Fields, edit_feature: &str, lenient: bool, witness: &dyn Fn(&str, String) -> Value) {
+    let mut problems: Vec<(String, String)> = vec![];
+    if f.method != r.method { problems.push(("method/wrong-value".into(), f.method.clone())) }
+    // path
+    match (&f.path, pct_decode(&r.raw_path).and_then(|d| String::from_utf8(d).ok())) {
+        (Err(p), decoded) => problems.push((format!("accessor:path.str/{}/panic:{}", if decoded.is_some() { "decodable" } else { "non-utf8-escape" }, panic_kind(p)), p.clone())),
+        (Ok(got), Some(want)) => { let stripped = if want.len() > 1 { want.strip_suffix('/').unwrap_or(&want).to_string() } else { want.clone() };
+            if *got != want && *got != stripped { problems.push(("path/wrong-value".into(), format!("`{got}` expected `{want}`"))) } }
+        (Ok(_), None) => {}
+    }
+    // query
+    match (&f.query, r.query_pairs()) {
+        (Err(p), _) => problems.push((format!("accessor:query.iter/panic:{}", panic_kind(p)), p.clone())),
+        (Ok(got), Some(want)) => {
+            let want: Vec<(String, String)> = want.into_iter().map(|(k, v)| (String::from_utf8_lossy(&k).into_owned(), String::from_utf8_lossy(&v).into_owned())).collect();
+            if *got != want { problems.push(("query/wrong-pairs".into(), format!("{got:?} expected {want:?}"))) }
+        }
+        _ => {}
+    }
+    // payload
+    let want_payload = &r.body;
+    match &f.payload {
+        None => if !want_payload.is_empty() { problems.push((format!("payload/{}/missing", if r.headers.iter().any(|(n, _)| n == "Content-Length" || n == "content-length") { "plain" } else { "content-length-in-mixed-case" }), format!("{} bytes expected", want_payload.len()))) },
+        Some(p) => if p != want_payload {
+            let feat = if want_payload.first() == Some(&0) { "body-starts-with-nul" } else if r.head_len + r.body.len() > 1024 { "spans-buffer" } else { "plain" };
+            problems.push((format!("payload/{feat}/wrong-bytes"), format!("{} bytes, expected {}", p.len(), want_payload.len())))
+        },
+    }
+    // header lookups
+    let mut names: Vec<String> = vec![];
+    for (n, _) in &r.headers { if !names.iter().any(|x| x.eq_ignore_ascii_case(n)) { names.push(n.clone()) } }
+    for n in &names {
+        let written: Vec<&str> = r.headers.iter().filter(|(k, _)| k.eq_ignore_ascii_case(n)).map(|(k, _)| k.as_str()).collect();
+        let kind = name_kind(&written);
+        let want = r.joined(n);
+        let want_s: Vec<String> = want.iter().map(|w| String::from_utf8_lossy(w).into_owned()).collect();
+        for (spelling_name, spelling) in [("as-written", n.clone()), ("lower", n.to_ascii_lowercase()), ("title", title_case(n))] {
+            if let Some((_, res)) = f.lookups.iter().find(|(l, _)| *l == spelling) {
+                match res {
+                    Err(p) => problems.push((format!("accessor:headers.get/{kind}/panic:{}", panic_kind(p)), p.clone())),
+                    Ok(None) => problems.push((format!("header-lookup/{kind}/{spelling_name}/missing"), format!("get({spelling:?}) = None, expected {want_s:?}"))),
+                    Ok(Some(v)) => if !want_s.contains(v) { problems.push((format!("header-lookup/{kind}/{spelling_name}/wrong-value"), format!("get({spelling:?}) = {v:?}, expected {want_s:?}"))) },
+                }
+            }
+        }
+        if let Some((tn, res)) = f.typed.iter().find(|(t, _)| t.eq_ignore_ascii_case(n)) {
+            match res {
+                Err(p) => problems.push((format!("accessor:typed/{kind}/panic:{}", panic_kind(p)), p.clone())),
+                Ok(None) => problems.push((format!("typed-accessor/{kind}/missing"), format!("{tn}() = None, expected {want_s:?}"))),
+                Ok(Some(v)) => if !want_s.contains(v) { problems.push((format!("typed-accessor/{kind}/wrong-value"), format!("{tn}() = {v:?}, expected {want_s:?}"))) },
+            }
+        }
+    }
+    // typed accessors must not invent headers
+    for (tn, res) in &f.typed { if let Ok(Some(v)) = res { if !names.iter().any(|n| n.eq_ignore_ascii_case(tn)) { problems.push(("typed-accessor/invented".into(), format!("{tn}() = {v:?}"))) } } }
+    if problems.is_empty() {
+        ctx.pass(&format!("complete:accepted:{}h:{}", names.len().min(3), if r.body.is_empty() { "nobody" } else { "body" }), true, names.len() > 0 || !r.body.is_empty());
+    } else if lenient {
+        ctx.ambiguous("open-or-oversized");
+    } else {
+        let n = problems.len() as u64;
+        for (cls, detail) in &problems { ctx.violation(&format!("C02/well-formed/{cls}"), true, || witness(cls, detail.clone())); }
+        ctx.evaluations -= n - 1; ctx.nontrivial -= n - 1;
+        let _ = edit_feature;
+    }
+}
+
+/* ---------------- exploration ---------------- */
+
+fn bases(full: bool) -> Vec<Base> {
+    let methods: Vec<&'static str> = if full { METHODS.to_vec() } else { vec!["GET", "POST", "HEAD"] };
+    let targets: Vec<&str> = if full { TARGET_MENU.to_vec() } else { TARGET_MENU.iter().copied().filter(|t| ["/", "/a/", "/a?x=1&y=%20", "/a?", "/a%2Fb", "/%C3%A9", "/%FF"].contains(t)).collect() };
+    let sels = header_selections(if full { 3 } else { 2 }, HEADER_MENU.len());
+    let mut out = vec![];
+    for m in &methods { for t in &targets { for s in &sels {
+        let headers: Vec<(&'static str, &'static str)> = s.iter().map(|&i| HEADER_MENU[i]).collect();
+        let probe = Base { method: m, target: t.as_bytes().to_vec(), headers: headers.clone(), body: vec![], with_cl: false };
+        let hl = probe.head().len();
+        for body in bodies(hl, full) {
+            let with_cl = !body.is_empty();
+            out.push(Base { method: m, target: t.as_bytes().to_vec(), headers: headers.clone(), body, with_cl });
+        }
+    } } }
+    // targets that make the head end within one byte of the 1 KiB buffer boundary
+    for m in ["GET", "POST"] { for delta in [-1isize, 0, 1] { for body in [&b""[..], &b"xyz"[..]] {
+        let fixed = Base { method: m, target: b"/".to_vec(), headers: vec![("Host", "h")], body: body.to_vec(), with_cl: !body.is_empty() }.head().len();
+        let fill = (1024isize + delta - fixed as isize) as usize;
+        let mut target = b"/".to_vec(); target.extend(std::iter::repeat(b'p').take(fill));
+        out.push(Base { method: m, target, headers: vec![("Host", "h")], body: body.to_vec(), with_cl: !body.is_empty() });
+    } } }
+    out
+}
+
+pub fn run(ctx: &mut Ctx) {
+    crate::app::pin_clock();
+    let quick = ctx.quick();
+    let all = bases(!quick);
+    let reduced_stride = if quick { 7 } else { 3 };
+    ctx.extra.insert("bases".into(), json!(all.len()));
+    let mut dev_counts = [0u64; 3];
+    for (bi, b) in all.iter().enumerate() {
+        if !ctx.mine() { continue }
+        if ctx.out_of_time() { break }
+        ctx.states += 1;
+        let bytes = b.bytes();
+        // deviation 0
+        check_bytes(ctx, &bytes, "none", "well-formed"); dev_counts[0] += 1;
+        // deviation 1: every structural edit, every truncation point  (quick: on every 7th base / thorough: every base)
+        let dev1 = !quick || bi % reduced_stride == 0 || b.target.len() > 900;
+        if dev1 {
+            for e in STRUCTURAL { if let Some(v) = apply_structural(b, e) { check_bytes(ctx, &v, e, e); dev_counts[1] += 1; } }
+            for p in trunc_points(&bytes, !quick) { check_bytes(ctx, &bytes[..p], &format!("trunc@{p}"), "truncated"); dev_counts[1] += 1; }
+        }
+        // deviation 2 (thorough): every pair of structural edits and every structural edit followed by a truncation, on a reduced base set
+        if !quick && bi % 97 == 0 {
+            for e1 in STRUCTURAL { if let Some(v1) = apply_structural(b, e1) {
+                for p in trunc_points(&v1, false) { check_bytes(ctx, &v1[..p], &format!("{e1}+trunc@{p}"), e1); dev_counts[2] += 1; }
+                // second structural edit applied to the same base fields where they commute (different parts): re-apply on a base rebuilt from the first edit is not possible in general,
+                // so pairs are formed by applying e2 to the base and splicing: only pairs touching different parts are generated
+                for e2 in STRUCTURAL { if e1 < e2 && part_of(e1) != part_of(e2) { if let Some(v) = apply_pair(b, e1, e2) { check_bytes(ctx, &v, &format!("{e1}+{e2}"), e1); dev_counts[2] += 1; } } }
+            } }
+        }
+    }
+    ctx.extra.insert("sum_dev0".into(), json!(dev_counts[0])); ctx.extra.insert("sum_dev1".into(), json!(dev_counts[1])); ctx.extra.insert("sum_dev2".into(), json!(dev_counts[2]));
+    ctx.extra.insert("rule".into(), json!("case = byte string presented as the first read of a fresh connection; deviation 0 = product of menus (methods x targets x ordered header selections x bodies incl. bodies ending exactly at / one past the 1 KiB buffer, and heads ending within one byte of it); deviation 1 = one structural edit (36 kinds) or one truncation point; deviation 2 = pairs; non-trivial = every case (each is classified by the reference parser and compared); collision = the input is malformed/incomplete, or well-formed with headers or a body (the paths on which lookups, joins and payload slicing happen)"));
+    ctx.extra.insert("bounds".into(), json!({"methods": if quick { 3 } else { 7 }, "targets": if quick { 7 } else { TARGET_MENU.len() }, "header_menu": HEADER_MENU.len(), "header_lines": if quick { "0..2" } else { "0..3" },
+        "structural_edits": STRUCTURAL.len(), "deviation_completed": if quick { "1 (on every 7th base), 0 on all" } else { "1 on all bases, 2 on every 97th base" }}));
+    ctx.traces_validated = ctx.transitions;
+    ctx.sample(|| json!({"input": "GET /a?x=1 HTTP/1.1\\r\\nHost: h.example\\r\\n\\r\\n", "deviation": "none"}));
+    ctx.sample(|| json!({"input": "GET /a\\r\\nHost: h.example\\r\\n\\r\\n", "deviation": "no-second-sp"}));
+}
+
+fn part_of(e: &str) -> &'static str {
+    if e.starts_with("ver:") || e == "no-second-sp" { "version" } else if e.starts_with("method:") || e == "double-sp" { "method" }
+    else if e.starts_with("target:") || e.ends_with(":target") { "target" } else if e.starts_with("hdr:") || e.ends_with(":name") || e.ends_with(":value") { "header" }
+    else if e.starts_with("cl:") || e.starts_with("te:") || e.starts_with("body:") { "length" } else { "prefix" }
+}
+
+/// two structural edits on different parts: apply e1, then transplant the part e2 changes
+fn apply_pair(b: &Base, e1: &str, e2: &str) -> Option<Vec<u8>> {
+    // Both edits are defined on the base's fields; since they touch different parts, applying e2 to a base whose e1-part was
+    // already rewritten equals rewriting both parts.  We emulate by textual substitution of the differing region.
+    let orig = b.bytes();
+    let v1 = apply_structural(b, e1)?;
+    let v2 = apply_structural(b, e2)?;
+    // common prefix/suffix of (orig, v2) delimit e2's change; apply the same replacement inside v1 if the region is intact there
+    let pre = orig.iter().zip(&v2).take_while(|(a, c)| a == c).count();
+    let suf = orig[pre..].iter().rev().zip(v2[pre..].iter().rev()).take_while(|(a, c)| a == c).count();
+    let (old_mid, new_mid) = (&orig[pre..orig.len() - suf], &v2[pre..v2.len() - suf]);
+    // locate the same context in v1: the suffix after the change is the anchor
+    let anchor = &orig[orig.len() - suf..];
+    if !v1.ends_with(anchor) && suf > 0 {
+        // e1 changed the tail (e.g. the body): try prefix anchoring
+        if v1.len() >= pre + old_mid.len() && v1[..pre] == orig[..pre] && &v1[pre..pre + old_mid.len()] == old_mid {
+            let mut out = v1[..pre].to_vec(); out.extend_from_slice(new_mid); out.extend_from_slice(&v1[pre + old_mid.len()..]); return Some(out)
+        }
+        return None
+    }
+    let end = v1.len() - suf;
+    if end < old_mid.len() || &v1[end - old_mid.len()..end] != old_mid { return None }
+    let mut out = v1[..end - old_mid.len()].to_vec(); out.extend_from_slice(new_mid); out.extend_from_slice(&v1[end..]);
+    Some(out)
+}
+
+pub fn replay(ctx: &mut Ctx, case: &Value) {
+    crate::app::pin_clock();
+    let bytes = crate::core::unesc(case["input"].as_str().expect("input"));
+    let dev = case["deviation"].as_str().unwrap_or("replay").to_string();
+    let feature = if dev.starts_with("trunc@") { "truncated".to_string() } else { dev.split('+').next().unwrap_or("replay").to_string() };
+    let feature = if dev == "none" { "well-formed".to_string() } else { feature };
+    check_bytes(ctx, &bytes, &dev, &feature);
+}
